@@ -992,9 +992,13 @@ def _append(ex, fn, args, kw, node):
     v = args[0]
     if c.seq is None:
         k = c.kind or ex.kind_of(v)
-        ex.setcell(p, ListCell(z3.Unit(ex.flat(v, k)), k))
+        j = v.t if (k == 'str' and isinstance(v, VStr)) else None
+        ex.setcell(p, ListCell(z3.Unit(ex.flat(v, k)), k, j))
     else:
-        ex.setcell(p, ListCell(z3.Concat(c.seq, z3.Unit(ex.flat(v, c.kind))), c.kind))
+        j = None
+        if c.kind == 'str' and c.joined is not None and isinstance(ex.res(v), VStr):
+            j = z3.Concat(c.joined, ex.res(v).t)
+        ex.setcell(p, ListCell(z3.Concat(c.seq, z3.Unit(ex.flat(v, c.kind))), c.kind, j))
     return NONE
 
 
@@ -1216,6 +1220,9 @@ def _join(ex, fn, args, kw, node):
     v = ex.res(args[0])
     if isinstance(v, VPtr) and isinstance(ex.cell(v), ListCell) and ex.cell(v).kind != 'str':
         ex.raise_('TypeError', node)
+    if isinstance(v, VPtr) and isinstance(ex.cell(v), ListCell) and ex.cell(v).joined is not None \
+            and sep.concrete() == '':
+        return VStr(ex.cell(v).joined)
     ex.used_assumptions.add('A-BUILTIN: str.join over symbolic sequence is an opaque string')
     return VStr(z3.String(ex.fresh_name('joined')))
 
@@ -1274,25 +1281,60 @@ def _split(ex, fn, args, kw, node):
 
 @builtin('str.find', 'str.rfind', 'str.index')
 def _find(ex, fn, args, kw, node):
-    s = fn.self_val
+    s_ = fn.self_val
     a = args[0]
     if not isinstance(a, VStr):
         ex.raise_('TypeError', node)
-    if len(args) > 1:
-        ex.limit('str.find with start', node)
     which = fn.name.split('.')[1]
+    cs, ca = s_.concrete(), a.concrete()
+    cb = [x.concrete() if isinstance(x, VInt) else ('N' if isinstance(x, VNone) else None) for x in args[1:]]
+    if cs is not None and ca is not None and all(b is not None for b in cb):
+        try:
+            return VInt(getattr(cs, which)(ca, *[None if b == 'N' else b for b in cb]))
+        except ValueError:
+            ex.raise_('ValueError', node)
+    base = s_.t
+    off = z3.IntVal(0)
+    if len(args) > 1:
+        # s.find(sub, start, end) searches s[start:end]; indices are relative to s
+        lo = ex.res(args[1])
+        hi = ex.res(args[2]) if len(args) > 2 else NONE
+        n = z3.Length(s_.t)
+        a_ = ex.clamp(lo, n, z3.IntVal(0))
+        b_ = ex.clamp(hi, n, n)
+        pre, mid, post = ex.split_seq(s_.t, lo, hi, node)
+        base = mid
+        off = a_
     if which == 'find':
-        return VInt(z3.IndexOf(s.t, a.t, 0))
+        r = z3.IndexOf(base, a.t, 0)
+        return VInt(z3.If(r < 0, r, r + off))
     if which == 'index':
-        r = z3.IndexOf(s.t, a.t, 0)
+        r = z3.IndexOf(base, a.t, 0)
         ex.may_raise(r < 0, 'ValueError', node)
-        return VInt(r)
+        return VInt(r + off)
     r = z3.Int(ex.fresh_name('rfind'))
-    ex.assume(z3.And(r >= -1, r <= z3.Length(s.t) - z3.Length(a.t)))
-    ex.assume((r == -1) == z3.Not(z3.Contains(s.t, a.t)))
-    ex.assume(z3.Implies(r >= 0, z3.SubString(s.t, r, z3.Length(a.t)) == a.t))
-    ex.assume(z3.Implies(r >= 0, z3.Not(z3.Contains(z3.SubString(s.t, r + 1, z3.Length(s.t)), a.t))))
-    return VInt(r)
+    la = z3.Length(a.t)
+    ex.assume(z3.And(r >= -1, r <= z3.Length(base) - la))
+    ex.assume((r == -1) == z3.Not(z3.Contains(base, a.t)))
+    ex.assume(z3.Implies(r >= 0, z3.SubString(base, r, la) == a.t))
+    ex.assume(z3.Implies(r >= 0, z3.Not(z3.Contains(z3.SubString(base, r + 1, z3.Length(base)), a.t))))
+    return VInt(z3.If(r < 0, r, r + off))
+
+
+@builtin('str.ljust', 'str.rjust')
+def _ljust(ex, fn, args, kw, node):
+    s_ = fn.self_val
+    w = ex.flat(ex.res(args[0]), 'int')
+    fill = ex.res(args[1]) if len(args) > 1 else VStr(' ')
+    r = z3.String(ex.fresh_name('just'))
+    pad = z3.String(ex.fresh_name('pad'))
+    n = z3.Length(s_.t)
+    ex.assume(z3.Length(pad) == z3.If(w > n, w - n, 0))
+    cf = fill.concrete()
+    if cf is not None and len(cf) == 1:
+        ex.assume(z3.InRe(pad, z3.Star(z3.Re(cf))))
+    ex.assume(r == (z3.Concat(s_.t, pad) if fn.name.endswith('ljust') else z3.Concat(pad, s_.t)))
+    return VStr(r)
 
 
 @builtin('str.isdigit', 'str.isalpha', 'str.isspace', 'str.isalnum')
